@@ -71,7 +71,7 @@ def wasserstein(dgm1, dgm2, matching=False):
         T = np.array([[0, 0]])
         N = 1
     # Compute CSM between S and dgm2, including points on diagonal
-    DUL = metrics.pairwise.pairwise_distances(S, T)
+    DUL = metrics.pairwise.pairwise_distances(S[:, 0:2], T[:, 0:2])
 
     # Put diagonal elements into the matrix
     # Rotate the diagrams to make it easy to find the straight line
